@@ -18,7 +18,7 @@ for pid in props:
             "replay_cmd_template": "cat {path}",
             "engine": t.get("engine", "verus+kani"),
             "level_claimed": {"category": config.CHECKS[pid].get("level", "proof"), "text": t["level_text"], "design_ref": t.get("design_ref", "DESIGN.md §7")},
-            "level_note": t["level_note"] + ((" Dependency units run with this check, every obligation in them counted (callee contracts are re-proved here, not merely cited): " + ", ".join(config.CHECKS[pid]["dep_units"]) + ".") if config.CHECKS[pid].get("dep_units") else ""),
+            "level_note": t["level_note"] + ((" Dependency units run with this check, every obligation in them counted (callee contracts are re-proved here, not merely cited; a failed dependency obligation is a violation of this property only with a failing input replayed on the real code, otherwise undecided): " + ", ".join(config.CHECKS[pid]["dep_units"]) + ".") if config.CHECKS[pid].get("dep_units") else ""),
             "technique": t["technique"],
         })
 na = [{"property_id": pid, "reason": mt.NOT_APPLICABLE.get(pid, "check not built yet (planned in DESIGN.md §0); not claimed")} for pid in props if pid not in [c["property_id"] for c in checks]]
